@@ -49,6 +49,24 @@ func kernelConfigs(prop, tier string) []kernelCfg {
 		}
 		return cfgs
 	}
+	if prop == "C14" {
+		// the CLI built with the race detector, on real sockets: sender, receiver and the closing of the AF_PACKET source
+		// and the raw sink run on the real scheduler, several runs and end-to-end probes per process
+		cfgs = []kernelCfg{
+			{prop, "race-cli-icmp", []string{"-P", "icmp", "-q", "4", "-Q", "3"}, false, nil, false},
+			{prop, "race-cli-udp", []string{"-P", "udp", "-q", "3", "-Q", "3"}, false, nil, false},
+			{prop, "race-cli-tcp-sack", []string{"-P", "tcp", "-p", "8080", "--tcp-method", "sack", "-q", "3", "-Q", "2"}, false, nil, false},
+		}
+		if tier == "thorough" {
+			cfgs = append(cfgs,
+				kernelCfg{prop, "race-cli-tcp-syn", []string{"-P", "tcp", "-p", "8080", "--tcp-method", "syn", "-q", "3", "-Q", "3"}, false, nil, false},
+				kernelCfg{prop, "race-cli-tcp-prefer-sack-closed", []string{"-P", "tcp", "-p", "8099", "--tcp-method", "prefer_sack", "-q", "3", "-Q", "2"}, false, nil, false},
+				kernelCfg{prop, "race-cli-icmp6", []string{"-P", "icmp", "-q", "4", "-Q", "3"}, true, nil, false},
+				kernelCfg{prop, "race-cli-udp6", []string{"-P", "udp", "-q", "3", "-Q", "3"}, true, nil, false},
+			)
+		}
+		return cfgs
+	}
 	cfgs = []kernelCfg{
 		{prop, "icmp-flood", []string{"-P", "icmp"}, false, nil, true},
 		{prop, "udp-flood", []string{"-P", "udp"}, false, nil, true},
@@ -272,6 +290,35 @@ func runKernelCfg(tag string, cfg kernelCfg) (out kernelOutcome) {
 	}
 	if !ok {
 		out.inconclusive = "the undisturbed run never showed the lab's chain"
+		return
+	}
+	if cfg.prop == "C14" {
+		// the verdict is the race detector's: its reports land next to this process's own (same GORACE log_path) and are
+		// judged by the check's Finish step; here only "the race-built CLI ran and showed the chain" is recorded
+		l.bin = "datadog-traceroute.race"
+		if _, err := os.Stat(os.Getenv("VERIF_BUILD_DIR") + "/" + l.bin); err != nil {
+			out.inconclusive = "race-built CLI binary not built"
+			return
+		}
+		reps := 3
+		good := 0
+		for i := 0; i < reps; i++ {
+			o := l.cli(base...)
+			out.counters["race_cli_invocations"]++
+			if o.err == "WATCHDOG" {
+				out.inconclusive = "CLI watchdog fired"
+				return
+			}
+			if matches(o) == "" {
+				good++
+			}
+		}
+		if good == 0 {
+			out.inconclusive = "the race-built CLI never showed the lab's chain"
+			return
+		}
+		out.nontrivial = append(out.nontrivial, "kernel/"+cfg.name)
+		out.sample = map[string]any{"case": "C14/kernel/" + cfg.name, "runs": reps, "runs_with_the_chain": good}
 		return
 	}
 	if cfg.prop == "C10" {
